@@ -10,7 +10,9 @@ package c05
 // issued in both ways the teamserver has: a bare job queued with AddJobToQueue ("issue"),
 // and an operator request through the real TaskPrepare ("optask", "upload"; opcmds_test.go),
 // which is where operator-side per-request state (BofCallbacks) and mem-file chunk tasks
-// come from.  Things the
+// come from.  One case in six also carries relay state (relay_test.go): socks proxies with
+// real clients, reverse port forwards, and callbacks of the always-accepted relay kinds
+// with ids from every source, each followed by a probe with the same id.  Things the
 // teamserver queues on its own - relay jobs (SOCKS writes, request id 0) and the
 // COMMAND_PIVOT jobs that wrap a descendant's task for its ancestors - are not tasks with
 // a request id and add nothing to anybody's outstanding set.  The statement's exemption
@@ -37,7 +39,7 @@ import (
 )
 
 type OpE struct {
-	Kind    string `json:"kind"` // issue optask upload relay handout callback session
+	Kind    string `json:"kind"` // issue optask upload relay handout callback session socks sockskill
 	Agent   int    `json:"agent"`
 	Cmd     int    `json:"cmd,omitempty"`     // issue: index into issueCmds; optask: index into opCmds
 	Src     string `json:"src,omitempty"`     // callback: outstanding completed foreign never zero
@@ -46,6 +48,7 @@ type OpE struct {
 	Latest  bool   `json:"latest,omitempty"`  // callback, src outstanding / completed: the most recently issued command task / the most recently completed task instead of Pick
 	Main    bool   `json:"main,omitempty"`    // callback, src outstanding: Pick counts command tasks only (not the mem-file chunk tasks)
 	End     bool   `json:"end,omitempty"`     // callback: the kind is one of those that end a task of the id's command (endKinds), chosen by Variant
+	RelayK  bool   `json:"relayk,omitempty"`  // callback: the kind is one of the always-accepted relay kinds (socket / pivot), chosen by Variant; socks: Variant = condition of the client (clientConds)
 	AnyKind bool   `json:"anykind,omitempty"` // callback: kind drawn from all kinds instead of those of the id's command
 	Replay  bool   `json:"replay,omitempty"`  // callback: send the identical package a second time
 	Force   string `json:"force,omitempty"`   // callback: this kind (by name) instead of Variant/AnyKind
@@ -57,6 +60,7 @@ type CaseE struct {
 	Agents  int   `json:"agents"`
 	Parents []int `json:"parents,omitempty"` // Parents[i] < i is the SMB parent of agent i, -1 for a directly connected agent; absent = all direct
 	Logs    bool  `json:"logs"`              // SendLogs: agent log forwarding
+	Relay   bool  `json:"relay,omitempty"`   // relay state: socks proxies with real clients, a forwarded host that listens
 	Ops     []OpE `json:"ops"`
 }
 
@@ -95,10 +99,27 @@ func genE(t *rapid.T) CaseE {
 		}
 		c.Parents = append(c.Parents, p)
 	}
+	c.Relay = agentfx.Weighted(t, "relaystate", 5, 1) == 1
+	wSocks, wRelayCb, wKill := 0, 0, 0
+	if c.Relay {
+		wSocks, wRelayCb, wKill = 9, 16, 3
+	}
+	relayCb := func(ag int, force string, newest bool) OpE {
+		o := OpE{Kind: "callback", Agent: ag, RelayK: true, Force: force,
+			Src:     srcsE[agentfx.Weighted(t, "src", 10, 14, 14, 18, 18)],
+			Pick:    rapid.IntRange(0, 7).Draw(t, "pick"),
+			Variant: agentfx.Bits(t, "variant", 7),
+			Text:    rapid.StringOfN(rapid.RuneFrom([]rune("abcdefxyz0189")), 1, 8, -1).Draw(t, "text"),
+			N:       rapid.Uint32Range(0, 100000).Draw(t, "n")}
+		if newest {
+			o.N &^= 7 // sockOf: the newest client
+		}
+		return o
+	}
 	n := rapid.IntRange(1, 30).Draw(t, "nops")
 	for i := 0; i < n; i++ {
 		op := OpE{Agent: agentfx.Bits(t, "agent", 2) % c.Agents}
-		switch agentfx.Weighted(t, "kind", 26, 4, 4, 6, 52, 8, 9) {
+		switch agentfx.Weighted(t, "kind", 26, 4, 4, 6, 52, 8, 9, wSocks, wRelayCb, wKill) {
 		case 0:
 			op.Kind = "issue"
 			op.Cmd = rapid.IntRange(0, len(issueCmds)-1).Draw(t, "cmd")
@@ -113,6 +134,30 @@ func genE(t *rapid.T) CaseE {
 		case 5:
 			op.Kind = "session"
 			op.Variant = agentfx.Bits(t, "msg", 2)
+		case 7:
+			// a client of the agent's socks proxy in a generated condition; mostly followed by the
+			// agent's answer to the connect (or another relay callback about that socket) carrying
+			// an id from any source, and sometimes by a second one
+			op.Kind = "socks"
+			op.Variant = agentfx.Weighted(t, "cond", 2, 3, 2)
+			op.N = rapid.Uint32Range(0, 100000).Draw(t, "n")
+			c.Ops = append(c.Ops, op)
+			if agentfx.Weighted(t, "follow", 1, 4) == 0 {
+				continue
+			}
+			if agentfx.Bits(t, "handout", 1) == 1 {
+				c.Ops = append(c.Ops, OpE{Kind: "handout", Agent: op.Agent})
+			}
+			c.Ops = append(c.Ops, relayCb(op.Agent, afterClient[agentfx.Bits(t, "after", 3)], true))
+			if agentfx.Weighted(t, "second", 2, 1) == 1 {
+				c.Ops = append(c.Ops, relayCb(op.Agent, afterClient[agentfx.Bits(t, "after", 3)], true))
+			}
+			continue
+		case 8:
+			c.Ops = append(c.Ops, relayCb(op.Agent, "", false))
+			continue
+		case 9:
+			op.Kind = "sockskill"
 		case 6:
 			// operator path: TaskPrepare with a generated option map; mostly followed by the
 			// life of that very task: hand-out, streamed callbacks, one of the callbacks that
@@ -240,6 +285,7 @@ type worldE struct {
 	parent []int
 	loot   string
 	base   []map[string]int // per agent: events of a request from it that carries no callback and hands out nothing
+	relay  *relayWorld
 }
 
 // evKey identifies an event for the bookkeeping subtraction.  A relaying hop prints an
@@ -344,11 +390,34 @@ type obsE struct {
 	rejectedPlausible                                            map[string]bool // src/kind-class of rejected callbacks with effectful kind
 	accEffect, accNoEffect, rejected, relayAcc, logsAcc, replays int
 	labels                                                       map[string]bool
+	skipped                                                      string
 }
 
-var lastE obsE
+var (
+	lastE  obsE
+	skipsE = map[string]int{}
+)
 
-func checkE(c CaseE) (viol *core.Violation) {
+// skipE ends a case without a verdict: the relay fixture (real sockets, goroutines of the
+// teamserver) did not get into the state the history asks for in time.
+func skipE(why string) *core.Violation { return core.V("skip|"+why, "no verdict") }
+
+func checkE(c CaseE) *core.Violation {
+	v := checkE0(c)
+	if v != nil && strings.HasPrefix(v.Sig, "skip|") {
+		lastE.skipped = strings.TrimPrefix(v.Sig, "skip|")
+		skipsE[lastE.skipped]++
+		cp := map[string]int{}
+		for k, n := range skipsE {
+			cp[k] = n
+		}
+		core.SetExtra("cases_without_verdict", cp)
+		return nil
+	}
+	return v
+}
+
+func checkE0(c CaseE) (viol *core.Violation) {
 	lastE = obsE{rejectedPlausible: map[string]bool{}, labels: map[string]bool{}}
 	root, err := os.MkdirTemp("", "c05-")
 	if err != nil {
@@ -363,6 +432,8 @@ func checkE(c CaseE) (viol *core.Violation) {
 		return core.V("harness|fixture", "%v", err)
 	}
 	w.ep = ep
+	w.relayInit(c.Relay)
+	defer w.relayClose()
 	defer func() {
 		// downloads keep their loot files open
 		for _, s := range w.ses {
@@ -454,11 +525,105 @@ func checkE(c CaseE) (viol *core.Violation) {
 		}
 	}
 
+	// sendAs posts one callback of agent g in a request of its own and returns what it did.
+	// tolerant: the callback may make the teamserver queue relay jobs, which the same request
+	// then hands out.  Otherwise a request that hands something out although everything was
+	// drained can only carry a late job of a relay goroutine: no verdict.
+	sendAs := func(g int, sub demonref.Sub, tolerant bool) (eff []tsx.Event, change string, v *core.Violation) {
+		before, tb := w.snapAll()
+		w.rec.Take()
+		code, tasks, ok := w.post(g, []demonref.Sub{sub})
+		ev := w.rec.Take()
+		if code != 200 || !ok {
+			return nil, "", core.V("harness|callback-request", "callback request answered HTTP %d (decodable=%v, %d tasks)", code, ok, len(tasks))
+		}
+		if !agentfx.IsNoJob(tasks) && !tolerant {
+			if len(w.relay.clients) > 0 {
+				return nil, "", skipE("late-relay-job")
+			}
+			return nil, "", core.V("harness|callback-request", "callback request answered HTTP %d (decodable=%v, %d tasks)", code, ok, len(tasks))
+		}
+		after, ta := w.snapAll()
+		return w.effects(g, ev), diffSnaps(before, after, tb, ta), nil
+	}
+	// unissued: request ids the teamserver holds as outstanding for agent x that were never issued
+	// to x or are completed by the model.  Every id the operator side issues goes through the
+	// model (TaskPrepare's chunk tasks are read off right after the call), so whatever else
+	// shows up there was put there by the teamserver on its own.
+	probed := map[uint32]bool{}
+	unissued := func(x int) []uint32 {
+		has := map[uint32]bool{}
+		for _, t := range w.mod[x].out {
+			has[t.id] = true
+		}
+		var ids []uint32
+		a := w.ses[x].A
+		a.QueueMtx.Lock()
+		for _, t := range a.Tasks {
+			if !has[t.RequestID] && !probed[t.RequestID] {
+				ids = append(ids, t.RequestID)
+			}
+		}
+		a.QueueMtx.Unlock()
+		return ids
+	}
+	stepDesc := ""
+	afterStep := func() *core.Violation {
+		for x := range w.ses {
+			for _, id := range unissued(x) {
+				probed[id] = true
+				lastE.labels["unissued-outstanding-id-probed"] = true
+				if v := drain(x); v != nil {
+					return v
+				}
+				eff, change, v := sendAs(x, demonref.Sub{Cmd: agent.COMMAND_OUTPUT, ReqID: id, Body: kindByName["output"].Build(w.ses[x], "unissued", 0)}, false)
+				if v != nil {
+					return v
+				}
+				if len(eff) > 0 || change != "" {
+					for _, t := range w.mod[x].done {
+						if t.id == id {
+							return core.V("completed-id-accepted|completed-by="+t.doneBy, "agent %d: request id %#x was completed by its final %s callback, yet the teamserver still lists it as outstanding after %s and acted upon an output callback carrying it: %s", x, id, t.doneBy, stepDesc, describe(eff))
+						}
+					}
+					return core.V("unissued-id-accepted|after="+stepDesc, "agent %d: after %s the teamserver lists request id %#x as outstanding although no task with that id was ever issued to this agent, and an output callback carrying it was acted upon: %s %s", x, stepDesc, id, describe(eff), change)
+				}
+			}
+		}
+		return nil
+	}
+
 	for i, op := range c.Ops {
+		if i > 0 {
+			if v := afterStep(); v != nil {
+				return v
+			}
+		}
+		stepDesc = op.Kind
 		g := op.Agent % c.Agents
 		m := w.mod[g]
 		ses := w.ses[g]
 		switch op.Kind {
+		case "socks":
+			cond := clientConds[op.Variant%len(clientConds)]
+			if why := w.addProxyClient(g, cond, op.N); why != "" {
+				return skipE(why)
+			}
+			// the connect job: queued by the teamserver on its own, no request id
+			m.ownRelay = true
+			markRelayed(g)
+			lastE.labels["relay-state:socks-client-"+cond] = true
+		case "sockskill":
+			port := w.relay.port[g]
+			if port == "" {
+				continue
+			}
+			before := socksState(ses.A)
+			w.operatorSocket(g, "socks kill", port)
+			w.rec.Take()
+			delete(w.relay.port, g)
+			w.settle(g, before)
+			lastE.labels["relay-state:socks-kill"] = true
 		case "issue":
 			cmd := issueCmds[op.Cmd%len(issueCmds)]
 			id := nextID
@@ -539,11 +704,21 @@ func checkE(c CaseE) (viol *core.Violation) {
 				"Arguments": base64.StdEncoding.EncodeToString([]byte("C:\\up.bin")) + ";" + base64.StdEncoding.EncodeToString(content),
 			}
 			msg := map[string]string{}
+			had := map[uint32]bool{}
+			for _, t := range ses.A.Tasks {
+				had[t.RequestID] = true
+			}
 			job, err := ses.A.TaskPrepare(agent.COMMAND_FS, info, &msg, "client", w.rec)
 			if err != nil || job == nil || job.RequestID != id {
 				return core.V("harness|upload", "TaskPrepare(fs upload) failed: %v", err)
 			}
 			ses.A.AddJobToQueue(*job)
+			for _, t := range ses.A.Tasks {
+				if !had[t.RequestID] && t.RequestID != id && t.Command == agent.COMMAND_MEM_FILE && !known[t.RequestID] {
+					known[t.RequestID] = true
+					m.out = append(m.out, &taskM{id: t.RequestID, cmd: agent.COMMAND_MEM_FILE, via: "chunk"})
+				}
+			}
 			m.out = append(m.out, &taskM{id: id, cmd: agent.COMMAND_FS, via: "operator"})
 			lastE.labels["issued:operator-path:fs-upload"] = true
 			w.rec.Take()
@@ -684,6 +859,8 @@ func checkE(c CaseE) (viol *core.Violation) {
 			var k kind
 			if fk, ok := kindByName[op.Force]; ok {
 				k = fk
+			} else if op.RelayK {
+				k = kinds[relayIdx[op.Variant%len(relayIdx)]]
 			} else if ek := endKinds(viaCmd); op.End && haveCmd && len(ek) > 0 {
 				k = ek[op.Variant%len(ek)]
 			} else if haveCmd && (!op.AnyKind || src == "outstanding") {
@@ -700,16 +877,10 @@ func checkE(c CaseE) (viol *core.Violation) {
 				return "unknown-id-accepted|src=" + src + "|ctx=" + m.ctx() + "|kind=" + kindClass(k)
 			}
 
+			stepDesc = "callback:" + k.Name
+			socksBefore := socksState(ses.A)
 			send := func() (eff []tsx.Event, change string, v *core.Violation) {
-				before, tb := w.snapAll()
-				w.rec.Take()
-				code, tasks, ok := w.post(g, []demonref.Sub{sub})
-				ev := w.rec.Take()
-				if code != 200 || !ok || !agentfx.IsNoJob(tasks) {
-					return nil, "", core.V("harness|callback-request", "callback request answered HTTP %d (decodable=%v, %d tasks)", code, ok, len(tasks))
-				}
-				after, ta := w.snapAll()
-				return w.effects(g, ev), diffSnaps(before, after, tb, ta), nil
+				return sendAs(g, sub, k.Relay)
 			}
 
 			// white-box, for the statistics only: does the implementation still hold the id?
@@ -730,6 +901,35 @@ func checkE(c CaseE) (viol *core.Violation) {
 					lastE.relayAcc++
 				} else {
 					lastE.logsAcc++
+				}
+				if !k.Relay {
+					break
+				}
+				// an always-accepted callback may carry any id; it makes none acceptable.  The
+				// standard probe: unless that id was issued to this agent and is still outstanding,
+				// a non-relay callback with the same id is refused - also after whatever the relay
+				// callback made the teamserver do (close a socket, queue a job for the agent, ...)
+				lastE.labels["relay-callback:"+k.Name] = true
+				lastE.labels["relay-callback-id:"+src] = true
+				if cl := w.relay.clients[g]; len(cl) > 0 && op.N%8 < 6 && strings.HasPrefix(k.Name, "socket-connect") {
+					lastE.labels[relayLabel(cl[len(cl)-1].cond, k)] = true
+				}
+				w.settle(g, socksBefore)
+				if m.find(id) != nil {
+					break
+				}
+				if v := drain(g); v != nil {
+					return v
+				}
+				pk := kindByName[[]string{"output", "sleep"}[op.N/8%2]]
+				eff, change, v := sendAs(g, demonref.Sub{Cmd: pk.Cmd, ReqID: id, Body: pk.Build(ses, op.Text, op.N)}, false)
+				if v != nil {
+					return v
+				}
+				lastE.labels["probed-after-relay-callback:"+src] = true
+				lastE.rejected++
+				if len(eff) > 0 || change != "" {
+					return core.V("id-accepted-after-relay-callback|src="+src+"|relay="+k.Name, "agent %d (%s): a %s callback carried request id %#x (%s); afterwards a %s callback with that id was acted upon: %s %s", g, via, k.Name, id, srcText(src), pk.Name, describe(eff), change)
 				}
 			case outstanding:
 				// (3) non-vacuity bookkeeping; and the model: a final callback completes the task
@@ -828,7 +1028,7 @@ func checkE(c CaseE) (viol *core.Violation) {
 			}
 		}
 	}
-	return nil
+	return afterStep()
 }
 
 func srcText(src string) string {
@@ -880,6 +1080,12 @@ func classifyE(c CaseE) core.Class {
 	for p := range o.rejectedPlausible {
 		plaus = append(plaus, p)
 		cl.Labels = append(cl.Labels, "rejected-plausible:"+p)
+	}
+	if o.skipped != "" {
+		cl.Labels = append(cl.Labels, "no-verdict:"+o.skipped)
+	}
+	if c.Relay {
+		cl.Labels = append(cl.Labels, "relay-state-case")
 	}
 	sort.Strings(plaus)
 	sort.Strings(cl.Labels)
@@ -933,7 +1139,7 @@ func classifyE(c CaseE) core.Class {
 func TestC05a(t *testing.T) {
 	core.Run(t, core.Spec[CaseE]{
 		Property: "C05", Sub: "a",
-		Rule: fmt.Sprintf("histories of 1-30 operations over a forest of 2-4 agents (roots registered through the real agent endpoint, SMB children linked by a real SMB_CONNECT callback of their parent, depth <= 2; tsx.Recorder as teamserver, private loot tree, SendLogs on in 1/4 of the cases): issue a task to any agent (AddJobToQueue with a fresh request id, one of %d commands; for a child it is wrapped into COMMAND_PIVOT jobs of its ancestors), operator fs-upload (mem-file chunk tasks, direct agents), an operator task request to any agent through the real TaskPrepare with a generated option map, queued like dispatch.go does (%d commands: inline execute with HasCallback true / false / absent - true registers a BofCallbacks entry keyed by the request id -, all flag values, object file and argument sizes 0-599 / 0-39 bytes, each uploaded as mem-file chunk tasks with request ids of their own; dotnet inline execute (assembly as mem-file); sleep, exit, checkin, proc list, screenshot, dotnet list-versions, job list; in about 1/3 of the inline-execute requests and 1/8 of the sleep / exit requests an option is missing or undecodable, so that TaskPrepare refuses the request after it may already have registered the callback entry and queued chunk tasks: such a TaskID was never issued and is probed as id source refused), in 3/4 of the cases followed by the life of that very task: hand-out, 0-2 streamed callbacks with its id, one of the callbacks that end a task of its command (inline execute: ran-ok / could-not-run / exception / symbol-not-found, dotnet: failed, else the command's final kinds) optionally replayed, 1-2 probes with the id just completed; relay job without request id (SOCKS write), hand-out, a session-level message of an agent for its own id (DEMON_INIT again with the same or another key and metadata - for a pivot child a repeated SMB_CONNECT by its parent -, a plain check-in), callback = one of %d well-formed callback kinds (payloads as Package.c builds them) sent by any agent - directly or relayed hop by hop as COMMAND_PIVOT/SMB_COMMAND - carrying an id from {own outstanding, own completed, outstanding at a descendant / at another agent, never issued, 0}, optionally replayed byte for byte. Oracle: (1) a callback whose id was not issued to THAT agent or is completed (kind not socket/pivot, not beacon-output with SendLogs) records nothing beyond the bookkeeping of a body-less request on the same path, leaves every agent's outstanding-id list, session data and the loot tree unchanged - whatever else the teamserver queued for or through that agent; (2) after a callback from the finality table was processed with an outstanding id, the same package again, and any later callback with that id, has no effect. Non-trivial: a rejected callback of an effectful kind whose id was completed, foreign or a descendant's; distinct = (pivot depth, SendLogs, set of plausible rejected id sources, set of contexts in which id 0 was probed)", len(issueCmds), len(opCmds), len(kinds)),
+		Rule: fmt.Sprintf("histories of 1-30 operations over a forest of 2-4 agents (roots registered through the real agent endpoint, SMB children linked by a real SMB_CONNECT callback of their parent, depth <= 2; tsx.Recorder as teamserver, private loot tree, SendLogs on in 1/4 of the cases): issue a task to any agent (AddJobToQueue with a fresh request id, one of %d commands; for a child it is wrapped into COMMAND_PIVOT jobs of its ancestors), operator fs-upload (mem-file chunk tasks, direct agents), an operator task request to any agent through the real TaskPrepare with a generated option map, queued like dispatch.go does (%d commands: inline execute with HasCallback true / false / absent - true registers a BofCallbacks entry keyed by the request id -, all flag values, object file and argument sizes 0-599 / 0-39 bytes, each uploaded as mem-file chunk tasks with request ids of their own; dotnet inline execute (assembly as mem-file); sleep, exit, checkin, proc list, screenshot, dotnet list-versions, job list; in about 1/3 of the inline-execute requests and 1/8 of the sleep / exit requests an option is missing or undecodable, so that TaskPrepare refuses the request after it may already have registered the callback entry and queued chunk tasks: such a TaskID was never issued and is probed as id source refused), in 3/4 of the cases followed by the life of that very task: hand-out, 0-2 streamed callbacks with its id, one of the callbacks that end a task of its command (inline execute: ran-ok / could-not-run / exception / symbol-not-found, dotnet: failed, else the command's final kinds) optionally replayed, 1-2 probes with the id just completed; relay job without request id (SOCKS write), hand-out, a session-level message of an agent for its own id (DEMON_INIT again with the same or another key and metadata - for a pivot child a repeated SMB_CONNECT by its parent -, a plain check-in), callback = one of %d well-formed callback kinds (payloads as Package.c builds them) sent by any agent - directly or relayed hop by hop as COMMAND_PIVOT/SMB_COMMAND - carrying an id from {own outstanding, own completed, outstanding at a descendant / at another agent, never issued, 0}, optionally replayed byte for byte. In 1/6 of the cases (label relay-state-case) the history also carries relay state, i.e. what makes the teamserver queue jobs on its own: a socks proxy started by the real operator command (TaskPrepare socks add <free port>) with real loopback clients that do the greeting and ask for a CONNECT (the teamserver queues the connect job, no request id) and are then alive / reset / half-closed when the agent answers; socks kill; a forwarded host that listens and a port nobody listens on for reverse port forwards; and callbacks of %d always-accepted relay kinds (socket connect answer ok / failed, read for the proxy client or - port forward - for the forwarded host which is dialled with the first piece, failed read / write, close, port-forward open / remove, rportfwd add / list / clear, pivot list / connect failed / disconnect of an unlinked id) aimed at the newest or another existing socket or an unknown one, carrying an id from ALL the id sources above. Oracle: (1) a callback whose id was not issued to THAT agent or is completed (kind not socket/pivot, not beacon-output with SendLogs) records nothing beyond the bookkeeping of a body-less request on the same path, leaves every agent's outstanding-id list, session data and the loot tree unchanged - whatever else the teamserver queued for or through that agent; (2) after a callback from the finality table was processed with an outstanding id, the same package again, and any later callback with that id, has no effect; (3) after every always-accepted callback whose id is not outstanding for that agent by the model - and after whatever it made the teamserver do (reply to or close the client, queue a close job, dial) - a non-relay callback (output / sleep) with the same id is refused; (4) after every step of the history, every request id the teamserver lists as outstanding for an agent but that the model never issued to it (or has completed) is probed with an output callback, which must be refused: jobs the teamserver queues on its own make no id acceptable. Non-trivial: a rejected callback of an effectful kind whose id was completed, foreign or a descendant's; distinct = (pivot depth, SendLogs, set of plausible rejected id sources, set of contexts in which id 0 was probed)", len(issueCmds), len(opCmds), len(kinds), len(relayIdx)),
 		Gen:  genE, Check: checkE, Classify: classifyE,
 		Assumptions: []string{
 			"finality table: a callback kind ends its task only where the Demon handler (payloads/Demon/src/core/Command.c) transmits exactly one package of that kind as its last action and starts nothing that reports later; streaming/asynchronous kinds never complete a task in the model",
@@ -941,6 +1147,8 @@ func TestC05a(t *testing.T) {
 			"a task counts as outstanding from the moment it is queued; callbacks are only generated after everything queued in the sender's tree was handed out",
 			"only COMMAND_SOCKET dials out (PortFwdOpen) and the statement exempts it, so the outbound-connection clause has no non-exempt carrier and is not probed with a listener",
 			"callback payloads are well-formed; malformed ones belong to C01",
+			"jobs the teamserver queues on its own (socks connect / write / close jobs, the close job after a socks reply that could not be written, the close jobs of socks kill, port-forward write jobs, COMMAND_PIVOT wrappers) carry no request id on the reference tree and reserve none; only what the operator side issues (tasks, and the mem-file chunk tasks TaskPrepare queues for them) is ever outstanding",
+			"relay fixture: the proxy clients' relay goroutines queue their close job asynchronously; the harness waits (bounded) for the jobs the last step must cause before it goes on; a request that is expected to hand out nothing but does hand out a job in a case with proxy clients is a late relay job: the case ends without verdict (counted in cases_without_verdict, label no-verdict:*), as does a case whose proxy could not be started or whose client was not served in time",
 			"inline execute: the reference teamserver ends the request on whichever of RAN_OK / COULD_NO_RUN / EXCEPTION / SYMBOL_NOT_FOUND it processes first (with or without a registered BofCallbacks entry); all four are final in the table, although the Demon sends its closing RAN_OK / COULD_NO_RUN after an EXCEPTION / SYMBOL_NOT_FOUND: that closing package then carries a completed id",
 			"an operator request that TaskPrepare refuses is never queued, so its TaskID was never issued - whatever TaskPrepare registered or queued for it before it found the defect; the mem-file chunk tasks TaskPrepare queues carry random request ids, which the harness reads off the agent's request list right after the call (record on issue), they count as issued to that agent",
 		},
